@@ -33,6 +33,8 @@ type op struct {
 	Err    string                 `json:"err,omitempty"`
 	// Implicit: the pattern is the `when` value itself (no {"pattern": ...} wrapper)
 	Implicit bool `json:"implicit_when,omitempty"`
+	// EmptySched: the rule also says "schedule":"" (or null), which is no schedule
+	EmptySched int `json:"empty_schedule,omitempty"`
 }
 
 type world struct {
@@ -80,6 +82,12 @@ func ruleMap(o op) map[string]interface{} {
 		r["when"] = map[string]interface{}{"pattern": ref.CloneMap(o.When)}
 		if o.Implicit {
 			r["when"] = ref.CloneMap(o.When)
+		}
+		switch o.EmptySched {
+		case 1:
+			r["schedule"] = ""
+		case 2:
+			r["schedule"] = nil
 		}
 	}
 	if o.Expire {
@@ -263,6 +271,9 @@ func main() {
 				o.Sched = hg.Intn(12) == 0
 				o.Expire = hg.Intn(8) == 0
 				o.Implicit = hg.Intn(8) == 0 // the pattern given directly as the `when` value
+				if !o.Sched && hg.Intn(12) == 0 {
+					o.EmptySched = 1 + hg.Intn(2) // "schedule":"" or null next to the `when`: no schedule
+				}
 				if hg.Intn(10) == 0 {
 					// a property variable (the only key of its map) next to rules that name keys
 					for _, v := range hg.Map(1) {
@@ -505,6 +516,8 @@ func directed(r *rep.Report) {
 			[]map[string]interface{}{P("a", 1), P("a", 2), P("b", 1)}},
 		{"property-variable-after-removal", []op{{Op: "addRule", Loc: "child", Id: "r1", When: P("a", "x")}, {Op: "remRule", Loc: "child", Id: "r1"}, {Op: "addRule", Loc: "child", Id: "r2", When: P("?k", "b")}},
 			[]map[string]interface{}{P("a", "b")}},
+		{"empty-schedule", []op{{Op: "addRule", Loc: "child", Id: "r1", When: P("a", "s1"), EmptySched: 1}, {Op: "addRule", Loc: "child", Id: "r2", When: P("a", "?x"), EmptySched: 2}},
+			[]map[string]interface{}{P("a", "s1")}},
 		{"optional-variable", []op{{Op: "addRule", Loc: "child", Id: "r1", When: P("a", "s1", "b", "??y")}},
 			[]map[string]interface{}{P("a", "s1"), P("a", "s1", "b", "here")}},
 		{"mixed-array", []op{{Op: "addRule", Loc: "child", Id: "r1", When: P("b", []interface{}{"", "?x", "s2"})}},
